@@ -7,6 +7,7 @@ package main
 // under test) and which handlers it started.
 
 import (
+	"runtime"
 	"bytes"
 	"errors"
 	"fmt"
@@ -730,7 +731,36 @@ func (s *srvConn) end() string {
 		ret = "not-returned"
 	}
 	s.shutdown()
+	if ret == "returned" {
+		// nothing of this connection is left behind: no goroutine still runs (or is parked in) a serverConn method
+		if n, where := leftBehind(); n > 0 {
+			return fmt.Sprintf("ok returned left-behind=%d(%s)", n, where)
+		}
+	}
 	return "ok " + ret
+}
+
+// leftBehind counts the goroutines that are still inside a method of the server connection, once the handlers have
+// been released and ServeConn has returned. It waits a little for them to wind down.
+func leftBehind() (int, string) {
+	buf := make([]byte, 1<<22)
+	n, where := 0, ""
+	for try := 0; try < 100; try++ {
+		n, where = 0, ""
+		for _, g := range strings.Split(string(buf[:runtime.Stack(buf, true)]), "\n\n") {
+			if i := strings.Index(g, "github.com/dgrr/http2.(*serverConn)."); i >= 0 {
+				n++
+				if where == "" {
+					where = strings.SplitN(g[i+len("github.com/dgrr/http2.(*serverConn)."):], "(", 2)[0]
+				}
+			}
+		}
+		if n == 0 {
+			return 0, ""
+		}
+		time.Sleep(5 * time.Millisecond)
+	}
+	return n, where
 }
 
 // raceGoAway forces the one interleaving the serial stepping never produces: the idle timer's goroutine has read
